@@ -60,6 +60,22 @@ def scenario(exe, shim, root, seed, stats):
         p = a.path(d, 'zero_%s.bin' % d)
         a.write(d, 'zero_%s.bin' % d, rng.bytes(1500), 1_600_000_000_000_000_000 + rng.below(1000) * 10**9)
     s.fs_link(); s.fs_dir()
+    # a symbolic link of the array that RESOLVES to a directory of the disk, the directory holding a file and an empty
+    # sub-directory (all three are recorded); pool makes a link to the link: following it leads into the data disk
+    dl = rng.choice(a.disks)
+    os.makedirs(os.path.join(a.ddir(dl), 'album', 'incoming'), exist_ok=True)
+    a.write(dl, 'album/track.bin', rng.bytes(2500), s.tick())
+    if not os.path.lexists(a.path(dl, 'latest')): os.symlink('album', a.path(dl, 'latest'))
+    if rng.chance(1, 2):
+        os.makedirs(os.path.join(a.ddir(dl), 'deep', 'er', 'empty'), exist_ok=True)
+        if not os.path.lexists(a.path(dl, 'album/up')): os.symlink('../deep', a.path(dl, 'album/up'))
+    if rng.chance(1, 2) and len(a.disks) > 1:
+        # the same name is a link to a directory on one disk and a real directory on another: the pool entry of the
+        # second must not be created THROUGH the pool link of the first (that would be inside the data disk)
+        do = rng.choice([d for d in a.disks if d != dl])
+        if not os.path.lexists(a.path(do, 'latest')):
+            os.makedirs(a.path(do, 'latest'))
+            a.write(do, 'latest/other.bin', rng.bytes(1200), s.tick())
     s.sync()
     state = rng.choice(['healthy', 'unsynced', 'damaged', 'lost'])
     if state in ('unsynced', 'damaged', 'lost'):
@@ -94,7 +110,7 @@ def scenario(exe, shim, root, seed, stats):
             ('check', ['-f', 'base0/']), ('scrub', ['-p', 'full']), ('scrub', ['-p', '50', '-o', '0']), ('sync', ['--force-empty', '--force-zero']),
             ('sync', ['--force-empty', '--force-zero', '-B', '2']), ('fix', []), ('fix', ['-d', a.disks[0]]), ('fix', ['-m']), ('fix', ['-f', 'base1/']), ('fix', ['-e']), ('fix', ['-S', '0', '-B', str(1 + rng.below(6))]), ('fix', ['-S', str(rng.below(4)), '-B', str(1 + rng.below(4))]),
             ('pool', []), ('touch', []), ('devices', [])]
-    picks = [cmds[rng.below(len(cmds))] for _ in range(7)] + [('touch', []), ('fix', []), ('sync', ['--force-empty', '--force-zero']), ('fix', ['-e']), ('fix', ['-S', '0', '-B', str(1 + rng.below(6))])]
+    picks = [cmds[rng.below(len(cmds))] for _ in range(7)] + [('pool', []), ('touch', []), ('fix', []), ('sync', ['--force-empty', '--force-zero']), ('fix', ['-e']), ('fix', ['-S', '0', '-B', str(1 + rng.below(6))])]
     for cmd, args in picks:
         shutil.rmtree(a.root); shutil.copytree(backup, a.root, symlinks=True)
         lg = os.path.join(vlib.scratch(), 'mon_%d_%d.log' % (seed, stats['runs']))
